@@ -4,7 +4,7 @@ import numpy as np
 from .. import core, posecase as pc, niexec
 from ..mtexec import f64_bits, bits_f64
 
-LEAN_MODULES = ["PoseVerif.Props.C09", "PoseVerif.Props.C09Norm", "PoseVerif.Props.C09Repr"]
+LEAN_MODULES = ["PoseVerif.Props.C09", "PoseVerif.Props.C09Norm", "PoseVerif.Props.C09Repr", "PoseVerif.Props.C09Ser"]
 RULE = ("poses (2-D and 3-D, 1–3 components, 1–2 people, 1–6 frames) with arbitrary missing patterns incl. whole frames, whole components and never-observed points; TWO fillings of the coordinates stored at "
         "missing points drawn from {zeros, small finite, ±3e38, NaN, +inf, −inf, mixtures}; the same random operation sequence (1–4 steps) on both: selection (get_components / remove_components / get_points / "
         "select_frames / slice_step / dropout with a fixed seed), flip, matmul, augment2d with a fixed seed, focus, bbox, interpolate (linear, quadratic, cubic), normalize, normalize_distribution "
